@@ -328,4 +328,177 @@ theorem preFn_some (s e : List Char) : preFn s = some e ↔
     simp only [Option.bind_some]
     exact (take2_some _ _).2 ⟨n1, n2, rfl, k1, k2⟩
 
+theorem tz_start {tz : List Char} (h : IsTz tz) :
+    tz = [] ∨ ∃ c t, tz = c :: t ∧ c ≠ ':' ∧ c ≠ '.' ∧ dset.has c = false := by
+  rcases h with rfl | rfl | ⟨sg, a, b, c, d, hsg, _, _, _, _, rfl | rfl⟩
+  · exact Or.inl rfl
+  · exact Or.inr ⟨'Z', [], rfl, by decide, by decide, by decide⟩
+  · right; refine ⟨sg, _, rfl, ?_⟩; rcases hsg with rfl | rfl <;> decide
+  · right; refine ⟨sg, _, rfl, ?_⟩; rcases hsg with rfl | rfl <;> decide
+
+theorem sec_then_tz {sec tz : List Char} (hsec : IsSec sec) (htz : IsTz tz) : secFn (sec ++ tz) = tz := by
+  have hstart := tz_start htz
+  have hfrac : fracFn tz = tz := by
+    rcases hstart with rfl | ⟨c, t, rfl, _, h2, _⟩
+    · rfl
+    · simp [fracFn, h2]
+  rcases hsec with rfl | rfl | ⟨a, b, ha, hb, rfl | ⟨fr, hfr, rfl⟩⟩
+  · rcases hstart with rfl | ⟨c, t, rfl, h1, _, _⟩
+    · rfl
+    · simp [secFn, h1]
+  · have : takeN dset.has 2 tz = none := by
+      rcases hstart with rfl | ⟨c, t, rfl, _, _, h3⟩
+      · rfl
+      · simp [takeN, h3]
+    simp [secFn, sdFn, this]
+  · have : takeN dset.has 2 (a :: b :: tz) = some tz := (take2_some _ _).2 ⟨a, b, rfl, ha, hb⟩
+    simp [secFn, sdFn, this, hfrac]
+  · have : takeN dset.has 2 (a :: b :: '.' :: (fr ++ tz)) = some ('.' :: (fr ++ tz)) :=
+      (take2_some _ _).2 ⟨a, b, rfl, ha, hb⟩
+    have hstop : tz = [] ∨ ∃ c t, tz = c :: t ∧ dset.has c = false := by
+      rcases hstart with h | ⟨c, t, h, _, _, h3⟩
+      · exact Or.inl h
+      · exact Or.inr ⟨c, t, h, h3⟩
+    have hd := (dropWhile_append_stop dset.has fr tz (dset_all hfr) hstop).1
+    simp [secFn, sdFn, this, fracFn, hd]
+
+theorem digit_ne_colon {c : Char} (h : IsDigit c) : c ≠ ':' := by
+  rintro rfl; revert h; unfold IsDigit; decide
+
+theorem offFn_intro {sg a b : Char} {r e : List Char} (hsg : IsSign sg) (ha : IsDigit a) (hb : IsDigit b)
+    (h : colonDD r = some e) : offFn (sg :: a :: b :: r) = some e := by
+  have h1 : signs.has sg = true := (has_sign sg).2 hsg
+  have h2 : dset.has a = true := (has_digit a).2 ha
+  have h3 : dset.has b = true := (has_digit b).2 hb
+  simp [offFn, expect, h1, h2, h3, h]
+
+theorem tz_full {tz : List Char} (h : IsTz tz) : tzFn tz = [] := by
+  rcases h with rfl | rfl | ⟨sg, a, b, c, d, hsg, ha, hb, hc, hd, rfl | rfl⟩
+  · simp [tzFn, expect, offFn]
+  · have : zs.has 'Z' = true := by decide
+    simp [tzFn, expect, this]
+  · have hz : zs.has sg = false := by rcases hsg with rfl | rfl <;> decide
+    have h2 : colonDD [c, d] = some [] := by
+      simp only [colonDD, if_neg (digit_ne_colon hc)]
+      exact (take2_some _ _).2 ⟨c, d, rfl, hc, hd⟩
+    simp [tzFn, expect, hz, offFn_intro hsg ha hb h2]
+  · have hz : zs.has sg = false := by rcases hsg with rfl | rfl <;> decide
+    have h2 : colonDD [':', c, d] = some [] := by
+      simp only [colonDD, if_true]
+      exact (take2_some _ _).2 ⟨c, d, rfl, hc, hd⟩
+    simp [tzFn, expect, hz, offFn_intro hsg ha hb h2]
+
+theorem colonDD_nil (r : List Char) (h : colonDD r = some []) :
+    ∃ c d, IsDigit c ∧ IsDigit d ∧ (r = [c, d] ∨ r = [':', c, d]) := by
+  cases r with
+  | nil => simp [colonDD] at h
+  | cons x u =>
+    simp only [colonDD] at h
+    by_cases hx : x = ':'
+    · rw [if_pos hx] at h
+      obtain ⟨c, d, rfl, hc, hd⟩ := (take2_some _ _).1 h
+      exact ⟨c, d, hc, hd, Or.inr (by rw [hx])⟩
+    · rw [if_neg hx] at h
+      obtain ⟨c, d, h', hc, hd⟩ := (take2_some _ _).1 h
+      exact ⟨c, d, hc, hd, Or.inl h'⟩
+
+theorem offFn_nil (e : List Char) (h : offFn e = some []) :
+    ∃ sg a b c d, IsSign sg ∧ IsDigit a ∧ IsDigit b ∧ IsDigit c ∧ IsDigit d ∧
+      (e = [sg, a, b, c, d] ∨ e = [sg, a, b, ':', c, d]) := by
+  unfold offFn at h
+  obtain ⟨e1, h1, h⟩ := Option.bind_eq_some_iff.1 h
+  obtain ⟨e2, h2, h⟩ := Option.bind_eq_some_iff.1 h
+  obtain ⟨e3, h3, h4⟩ := Option.bind_eq_some_iff.1 h
+  obtain ⟨sg, rfl, hsg⟩ := (expect_some _ _ _).1 h1
+  obtain ⟨a, rfl, ha⟩ := (expect_some _ _ _).1 h2
+  obtain ⟨b, rfl, hb⟩ := (expect_some _ _ _).1 h3
+  obtain ⟨c, d, hc, hd, hr⟩ := colonDD_nil _ h4
+  refine ⟨sg, a, b, c, d, (has_sign sg).1 hsg, (has_digit a).1 ha, (has_digit b).1 hb, hc, hd, ?_⟩
+  rcases hr with rfl | rfl
+  · exact Or.inl rfl
+  · exact Or.inr rfl
+
+theorem tz_nil (e : List Char) (h : tzFn e = []) : IsTz e := by
+  unfold tzFn at h
+  cases hz : expect zs.has e with
+  | some t =>
+    rw [hz] at h; simp only at h; subst h
+    exact Or.inr (Or.inl ((expect_lit_some 'Z' _ _).1 hz))
+  | none =>
+    rw [hz] at h; simp only at h
+    cases ho : offFn e with
+    | some t =>
+      rw [ho] at h; simp only at h; subst h
+      exact Or.inr (Or.inr (offFn_nil e ho))
+    | none =>
+      rw [ho] at h; simp only at h
+      exact Or.inl h
+
+theorem sec_split (e : List Char) : ∃ sec, IsSec sec ∧ e = sec ++ secFn e := by
+  cases e with
+  | nil => exact ⟨[], Or.inl rfl, rfl⟩
+  | cons c t =>
+    by_cases hc : c = ':'
+    · subst hc
+      simp only [secFn, if_true]
+      unfold sdFn
+      cases h2 : takeN dset.has 2 t with
+      | none => exact ⟨[':'], Or.inr (Or.inl rfl), rfl⟩
+      | some t2 =>
+        obtain ⟨a, b, rfl, ha, hb⟩ := (take2_some _ _).1 h2
+        simp only
+        cases t2 with
+        | nil => exact ⟨[':', a, b], Or.inr (Or.inr ⟨a, b, ha, hb, Or.inl rfl⟩), rfl⟩
+        | cons c2 t3 =>
+          by_cases hd : c2 = '.'
+          · subst hd
+            simp only [fracFn, if_true]
+            refine ⟨':' :: a :: b :: '.' :: t3.takeWhile dset.has,
+              Or.inr (Or.inr ⟨a, b, ha, hb, Or.inr ⟨_, ?_, rfl⟩⟩), ?_⟩
+            · intro x hx; exact (has_digit x).1 (mem_takeWhile_sat _ _ x hx)
+            · simp [List.takeWhile_append_dropWhile]
+          · simp only [fracFn, if_neg hd]
+            exact ⟨[':', a, b], Or.inr (Or.inr ⟨a, b, ha, hb, Or.inl rfl⟩), rfl⟩
+    · simp only [secFn, if_neg hc]
+      exact ⟨[], Or.inl rfl, rfl⟩
+
+theorem iso8601_datetime_language (s : List Char) : isoDatetimeAst.Accepts s ↔ IsIsoDatetime s := by
+  unfold Re.Accepts
+  rw [isoDatetime_head]
+  constructor
+  · intro h
+    obtain ⟨e, hp, he⟩ := Option.map_eq_some_iff.1 h
+    obtain ⟨y1, y2, y3, y4, m1, m2, d1, d2, sep, g1, g2, n1, n2, rfl, hh⟩ := (preFn_some _ _).1 hp
+    obtain ⟨sec, hsec, hsplit⟩ := sec_split e
+    exact ⟨y1, y2, y3, y4, m1, m2, d1, d2, sep, g1, g2, n1, n2, sec, secFn e, by rw [← hsplit],
+      hh.1, hh.2.1, hh.2.2.1, hh.2.2.2.1, hh.2.2.2.2.1, hh.2.2.2.2.2.1, hh.2.2.2.2.2.2.1, hh.2.2.2.2.2.2.2.1,
+      hh.2.2.2.2.2.2.2.2.1, hh.2.2.2.2.2.2.2.2.2.1, hh.2.2.2.2.2.2.2.2.2.2.1, hh.2.2.2.2.2.2.2.2.2.2.2.1,
+      hh.2.2.2.2.2.2.2.2.2.2.2.2, hsec, tz_nil _ he⟩
+  · rintro ⟨y1, y2, y3, y4, m1, m2, d1, d2, sep, g1, g2, n1, n2, sec, tz, rfl, a1, a2, a3, a4, b1, b2, c1, c2, hsep,
+      f1, f2, k1, k2, hsec, htz⟩
+    rw [(preFn_some _ _).2 ⟨y1, y2, y3, y4, m1, m2, d1, d2, sep, g1, g2, n1, n2, rfl, a1, a2, a3, a4, b1, b2, c1, c2,
+      hsep, f1, f2, k1, k2⟩]
+    simp only [Option.map_some]
+    rw [sec_then_tz hsec htz, tz_full htz]
+
+example : isoDatetimeAst.Accepts "1999-12-31T23:59".toList := by decide +kernel
+example : isoDatetimeAst.Accepts "1999-12-31 23:59:".toList := by decide +kernel
+example : isoDatetimeAst.Accepts "1999-12-31T23:59:58.125+05:30".toList := by decide +kernel
+example : IsIsoDatetime "1999-12-31T23:59:58.Z".toList := (iso8601_datetime_language _).1 (by decide +kernel)
+example : IsIsoDatetime "1999-12-31 23:59-0800".toList := (iso8601_datetime_language _).1 (by decide +kernel)
+example : ¬ IsIsoDatetime "1999-12-31T23:59:5".toList :=
+  fun h => absurd ((iso8601_datetime_language _).2 h) (by decide +kernel)
+example : ¬ IsIsoDatetime "1999-12-31T23:59+05:3".toList :=
+  fun h => absurd ((iso8601_datetime_language _).2 h) (by decide +kernel)
+example : ¬ IsIsoDatetime "1999-12-31x23:59".toList :=
+  fun h => absurd ((iso8601_datetime_language _).2 h) (by decide +kernel)
+example : ¬ IsIsoDatetime "1999-12-31T23:59ZZ".toList :=
+  fun h => absurd ((iso8601_datetime_language _).2 h) (by decide +kernel)
+/-- the hypothesis of the `←` direction is satisfiable directly -/
+example : IsIsoDatetime "2024-02-29T01:02:03.5Z".toList :=
+  ⟨'2', '0', '2', '4', '0', '2', '2', '9', 'T', '0', '1', '0', '2', ":03.5".toList, ['Z'], by decide,
+    by decide, by decide, by decide, by decide, by decide, by decide, by decide, by decide, Or.inl rfl,
+    by decide, by decide, by decide, by decide,
+    Or.inr (Or.inr ⟨'0', '3', by decide, by decide, Or.inr ⟨['5'], by decide, by decide⟩⟩), Or.inr (Or.inl rfl)⟩
+
 end PP.C18
